@@ -64,8 +64,13 @@ def expected_cuts(text_units, train_units, thr, dep):
                 near = True
             return a <= b
         a = v
-        b = sum(val(*t) for t in types) / n
-        if a == b or abs(a - b) * 10**9 < max(abs(a), abs(b)):
+        vals = [val(*t) for t in types]
+        b = sum(vals) / n
+        # an exact tie is judged ("not greater than the mean" gives a boundary) when the float computation is
+        # exact too: every dependency value is a dyadic rational, so the sum, the mean (equal to a) and the
+        # comparison carry no rounding; other ties and near ties are not judged
+        dyadic = all(x.denominator & (x.denominator - 1) == 0 and x.denominator <= 2**20 for x in vals)
+        if (a == b and not dyadic) or (a != b and abs(a - b) * 10**9 < max(abs(a), abs(b))):
             near = True
         return a <= b
 
@@ -136,7 +141,7 @@ def make_case(ck, text_units, train_units, ti, di, family):
                 site='tp.segment', desc={'text': text, 'train': train, 'threshold': thr, 'dependency': dep, 'family': family},
                 impl=impl, dec=dec, oracle=oracle,
                 eq=lambda m, i: m[0] == i,
-                skip=lambda m: m[1], res_of=lambda m: m[0],
+                skip=lambda m: m[1] and (not scope or expected_cuts(text_units, train_units, thr, dep)[1]), res_of=lambda m: m[0],
                 nontrivial=lambda m: m[0][0] == 'raise' or any(' ' in u for u in m[0][1]))
 
 
